@@ -46,6 +46,7 @@ CRATE_FINDERS = {
     "log": ("src/app/log.rs", "units/log/finder_test.rs"),
     "tracking": ("src/core/tracking.rs", "units/tracking/finder_test.rs"),
     "config": ("src/core/mod.rs", "units/config/finder_test.rs"),
+    "index": ("src/core/mod.rs", "units/index/finder_test.rs"),
 }
 CACHE = os.path.join(U.VERIF, ".cache")
 
